@@ -178,5 +178,7 @@ def run(ctx, wrapper, table, gen_file, check_fn, imports, what_model, what_prop,
                                     "not_exercised": missing,
                                     "calls_per_method": {m: dist.get("method:" + m, 0) for m in methods}}
     ctx.coverage["calls"] = stats.get("calls", 0)
-    if missing:
+    if missing and stats.get("stopped_after_hangs"):
+        ctx.coverage["method_table"]["note"] = "the run stopped after two calls that never returned; coverage of the table is incomplete"
+    elif missing:
         ctx.broken("coverage", "methods of the regenerated table were never called by the correspondence run: " + ", ".join(missing), "")
